@@ -260,10 +260,11 @@ func init() {
 		add(reg.Thorough, 60, spec{Cfg: cfg, Shape: "chain2", N: 1, F: 1, C: 0, MaxPer: 2}, 0, 1)
 		add(reg.Thorough, 30, spec{Cfg: cfg, Shape: "fanout", N: 1, F: 1, C: 0, MaxPer: 2}, 1, 1)
 		if !cfg.Blocking { // (in blocking mode a subscriber that leaves runs into the known C05 finding: unsubscribe waits for the publisher's read lock)
-			// (one preemption - the leaver's removal between two iterations of the dispatch loop - takes ~250k executions per
-			// configuration with a router in the picture: thorough tier; C04's */cancel-during-dispatch decides the same
-			// window on the bare Pub/Sub in the quick tier)
-			add(reg.Quick, 5, spec{Cfg: cfg, Shape: "fanout+leaver", N: 1, F: 0, C: 0, MaxPer: 0}, 1, 0)
+			// (with a router in the picture even the search without preemptions takes ~250k executions per configuration,
+			// and the window - the leaver's removal between two iterations of the dispatch loop - needs one preemption:
+			// thorough tier, budget-capped; C04's */cancel-during-dispatch decides the same window on the bare Pub/Sub in
+			// the quick tier)
+			add(reg.Thorough, 30, spec{Cfg: cfg, Shape: "fanout+leaver", N: 1, F: 0, C: 1, MaxPer: 0}, 1, 0)
 		}
 	}
 }
